@@ -22,12 +22,20 @@ def _optbool(v):
 
 
 def render_frame(f) -> str:
+    """All observable fields of a frame. Every accessor is read twice, the second time in the opposite order: what a
+    frame reports must not depend on which accessor was called first or how often (no stale cache); a frame whose two
+    passes differ renders as UNSTABLE and so differs from the model's frame."""
     h = f.header
-    return ":".join([
-        lib.hexs(f.as_bytes), "1" if f.is_valid else "0", _opthex(f.payload), _opt(f.frame_check_sequence),
-        _opt(h.frame_length), _opthex(h.destination_address), _opthex(h.source_address), _opt(h.control),
-        _opt(h.header_check_sequence), _opt(h.frame_format_type), _optbool(h.segmentation),
-        "1" if f.is_good_ffc else "0", "1" if f.is_expected_length else "0"])
+    acc = [lambda: lib.hexs(f.as_bytes), lambda: "1" if f.is_valid else "0", lambda: _opthex(f.payload),
+           lambda: _opt(f.frame_check_sequence), lambda: _opt(h.frame_length), lambda: _opthex(h.destination_address),
+           lambda: _opthex(h.source_address), lambda: _opt(h.control), lambda: _opt(h.header_check_sequence),
+           lambda: _opt(h.frame_format_type), lambda: _optbool(h.segmentation),
+           lambda: "1" if f.is_good_ffc else "0", lambda: "1" if f.is_expected_length else "0"]
+    first = [a() for a in acc]
+    second = [a() for a in reversed(acc)][::-1]
+    if first != second:
+        return "UNSTABLE(" + ":".join(first) + "|" + ":".join(second) + ")"
+    return ":".join(first)
 
 
 def render_frames(fs) -> str:
